@@ -7,7 +7,8 @@ open Gossamer Gossamer.C21
      n=<voters> me=<key> base=<root number> tree=<p1,p2,..|-> fin=<blk> chg=<-|e|num> R=<round> S=<set>|<op>;<op>;...
      thr <n>
    output: <class>;...|pv=.. pc=.. pve=.. pce=.. trk=N|tot=../..|pvb={..} dpc={..} bfc={..} dpv={..} fin={..}
-           [TAB spec=.. TAB kf=c21-direct-vote-shadows-ghost] -/
+           [TAB spec=<what the property demands> TAB kf=c21-wrong-number-vote-counted | c21-direct-vote-shadows-ghost]
+   `wn` / `byz` stand for outcome sets that are not compared (see harness). -/
 
 /-- canonical decimal (what Go's strconv.Itoa prints) -/
 def canonNat? (cs : List Char) : Option Nat :=
